@@ -1,5 +1,10 @@
 package main
 
+import (
+	"fmt"
+	"time"
+)
+
 // C07 — batch insertion is all-or-nothing (DESIGN 4/C07).
 
 func init() {
@@ -36,6 +41,39 @@ func runC07(k int, rng *Rng) CaseResult {
 			if w.rejects > before {
 				rejected++
 			}
+		}
+	}
+	// a few cases with chunks of more than a thousand objects ("all chunk sizes"): the offender
+	// sits after the 1024th member of its chunk
+	if k%50 == 7 && !w.failed() {
+		total := 1030 + rng.Intn(120)
+		big := make([]*Rec, total)
+		for i := range big {
+			big[i] = genRec(rng, w.m.tags, RecOpts{ValidOnly: true, Simple: true})
+			w.m.tags++
+			// keep unique fields free of accidental conflicts
+			big[i].K, big[i].KS, big[i].U8, big[i].I64, big[i].F64, big[i].X = 10000+i, fmt.Sprintf("big%d", i), 0, int64(10000+i), float64(10000+i), 10000+i
+			big[i].T = time.Unix(int64(1000000+i), 0).UTC()
+		}
+		// (a unique U8 cannot hold a thousand distinct values: such a batch is rejected at its first
+		// pair, which the model predicts as well)
+		big[1025+rng.Intn(total-1025)].Bad = 1
+		cs := pick(rng, []int{total, total + 1, 1 << 20, 1026})
+		before := w.rejects
+		w.Bulk(big, cs)
+		batches++
+		if w.rejects > before {
+			rejected++
+		}
+		if !w.failed() {
+			var n int
+			var e error
+			w.call("Count", func() { n, e = w.db.Count(&Rec{}) })
+			if e != nil || n != w.m.Len() {
+				w.fail("bulk-count", "InsertOrUpdateBulk", "-", fmt.Sprintf("after a bulk insertion of %d objects in chunks of %d with an invalid member: Count=%d err=%v, model holds %d", total, cs, n, e, w.m.Len()))
+			}
+			w.Invariants("index")
+			stats.Count("big_chunk_cases", 1)
 		}
 	}
 	var sample interface{}
